@@ -263,3 +263,69 @@ dc_from_state_dict = function(
 dc_from_state_dict.locals = {'updates': TreeMap}
 dc_from_state_dict.dict_hint = TreeMap
 dc_from_state_dict.str_sort = Key
+
+# ---- FrozenDict handlers (flax/core/frozen_dict.py): same laws as the dict handlers ------------------------------------
+FZ = 'flax/core/frozen_dict.py'
+FB = {
+  'serialization.to_state_dict': sd,
+  'serialization.from_state_dict': B['from_state_dict'],
+  'serialization.current_path': B['current_path'],
+  'FrozenDict': Handler('FrozenDict', lambda ex, a, kw: a[0], 'FrozenDict(mapping): seen through its mapping view (same keys, same values)'),
+}
+frozen_state_dict = function(
+  FZ + '::_frozen_dict_state_dict', params=[('xs', TreeMap)], returns=SDMap,
+  ensures=['dom(result) == dom(xs)', 'forall(StrKey, lambda k: implies(k in xs, result[k] == sd(xs[k])))'],
+  bindings=FB, props=('C10',))
+frozen_state_dict.str_sort = Key
+restore_frozen = function(
+  FZ + '::_restore_frozen_dict', params=[('xs', TreeMap), ('states', SDMap)], returns=TreeMap,
+  raises={'ValueError': 'exists(StrKey, lambda k: k in xs and not (k in states))'},
+  ensures=['dom(result) == dom(xs)', 'forall(StrKey, lambda k: implies(k in xs, result[k] == fsd(xs[k], states[k])))'],
+  bindings=FB, props=('C10',))
+restore_frozen.str_sort = Key
+restore_frozen.locals = {'diff': SetOf(Key)}
+
+# ---- to_state_dict / from_state_dict: the registry dispatch (the recursion itself is the uninterpreted sd / fsd above) ----------
+AnyT = opaque('AnyTarget', is_str=False)
+TyObj = opaque('TypeKey', is_str=False)
+AnyT.type_hook = lambda ex, v: ex.call_value(type_key, [v], {})
+ToFn = opaque('ToStateDictFn', is_str=False)
+FromFn = opaque('FromStateDictFn', is_str=False)
+HPair = Union('HandlerPair', [Ctor('HandlerPair', [('to', ToFn), ('frm', FromFn)], pytypes=('tuple',), tuple_like=True)])
+Registry = MapOf(TyObj, HPair)
+type_key = UFn('type_of_target', [AnyT], TyObj, 'type(target)')
+is_nt = UFn('is_namedtuple', [AnyT], BOOL, '_is_namedtuple(target)')
+apply_to = UFn('apply_to_state_dict_fn', [ToFn, AnyT], AnyT, 'ty_to_state_dict(target)')
+apply_from = UFn('apply_from_state_dict_fn', [FromFn, AnyT, AnyT], AnyT, 'ty_from_state_dict(target, state)')
+ToFn.call_hook = lambda ex, f, a, kw: ex.call_value(apply_to, [f, a[0]], {})
+FromFn.call_hook = lambda ex, f, a, kw: ex.call_value(apply_from, [f, a[0], a[1]], {})
+NT_MARK = GlobalVar('_NamedTuple', TyObj)
+REGKEY = '(_NamedTuple if is_namedtuple(target) else type_of_target(target))'
+# a state dict seen as an arbitrary value: its keys (if it is a dict) are strings by the handlers' contracts above
+AnyT.isinstance_hook = lambda ex, v, names: z3.Bool('state_is_dict') if names == {'dict'} else (_ for _ in ()).throw(OutsideSubset('isinstance ' + repr(names)))
+AnyT.methods = {'keys': lambda ex, v, a, kw: ex.fresh(SeqOf(Key), 'state_keys')}
+DISPATCH_B = {'_is_namedtuple': is_nt, '_NamedTuple': NT_MARK, 'dict': TypeTag('dict'), 'str': TypeTag('str'),
+              '_record_path': Handler('_record_path', lambda ex, a, kw: (NONEV, lambda: None), 'error-path bookkeeping only (push / pop of the name)')}
+to_sd_dispatch = function(
+  F + '::to_state_dict', params=[('target', AnyT)], free=[('_STATE_DICT_REGISTRY', Registry), ('_NamedTuple', TyObj)], returns=AnyT,
+  ensures=[f"implies(not ({REGKEY} in _STATE_DICT_REGISTRY), result == target)",          # unregistered types are leaves: returned as they are
+           f"implies({REGKEY} in _STATE_DICT_REGISTRY, result == apply_to_state_dict_fn(_STATE_DICT_REGISTRY[{REGKEY}].to, target))"],
+  invariants={0: []},      # the loop only asserts that the keys of a dict-shaped state are strings
+  bindings=DISPATCH_B, modifies=[], props=('C10',))
+from_sd_dispatch = function(
+  F + '::from_state_dict', params=[('target', AnyT), ('state', AnyT), ('name', Key)], free=[('_STATE_DICT_REGISTRY', Registry), ('_NamedTuple', TyObj)], returns=AnyT,
+  ensures=[f"implies(not ({REGKEY} in _STATE_DICT_REGISTRY), result == state)",           # a leaf is replaced by the stored value
+           f"implies({REGKEY} in _STATE_DICT_REGISTRY, result == apply_from_state_dict_fn(_STATE_DICT_REGISTRY[{REGKEY}].frm, target, state))"],
+  bindings=DISPATCH_B, modifies=[], props=('C10',))
+from_sd_dispatch.defaults = {'name': '.'}
+
+register_state = function(
+  F + '::register_serialization_state', params=[('ty', TyObj), ('ty_to_state_dict', ToFn), ('ty_from_state_dict', FromFn), ('override', BOOL)],
+  free=[('_STATE_DICT_REGISTRY', Registry)], assigns=('_STATE_DICT_REGISTRY',),
+  raises={'ValueError': 'ty in _STATE_DICT_REGISTRY and not override'},      # a second registration does not silently replace the first
+  ensures=['ty in _STATE_DICT_REGISTRY and _STATE_DICT_REGISTRY[ty].to == ty_to_state_dict and _STATE_DICT_REGISTRY[ty].frm == ty_from_state_dict',
+           'forall(TypeKey, lambda t: implies(t != ty, (t in _STATE_DICT_REGISTRY) == (t in old(_STATE_DICT_REGISTRY)) and '
+           'implies(t in _STATE_DICT_REGISTRY, _STATE_DICT_REGISTRY[t] == old(_STATE_DICT_REGISTRY)[t])))'],
+  bindings={}, props=('C10',))
+register_state.defaults = {'override': False}
+TyObj.attrs['__name__'] = (Key, None)
